@@ -76,6 +76,8 @@ func join(toks []lang.Tok, gap int, ins string) string {
 var insertions = []struct{ name, text string }{
 	{"space", " "}, {"two-spaces", "  "}, {"tab", "\t"}, {"block-comment", " /* c */ "}, {"tight-block-comment", "/* c */"},
 	{"adjacent-block-comments", " /* a *//* b */ "}, {"separated-block-comments", " /* a */ /* b */ "},
+	// comments whose body is empty, one character, a star: the scan for the terminator starts inside them
+	{"empty-block-comment", " /**/ "}, {"tight-empty-block-comment", "/**/"}, {"star-block-comment", " /***/ "}, {"one-character-block-comment", " /*c*/ "},
 }
 
 type counters struct{ programs, variants, edits, errorsSeen int64 }
@@ -144,7 +146,7 @@ func layout(r *ev.Run, p progen.Program, c *counters) {
 			tryIfAccepted("newline-inside-brackets", join(toks, g, "\n"))
 		}
 		for ii, in := range insertions {
-			if !thorough && (ii == 0 || ii == 1 || ii == 4) {
+			if !thorough && (ii == 0 || ii == 1 || ii == 4 || ii >= 9) {
 				continue // quick: tab, block comment, adjacent and separated block comments
 			}
 			if strings.HasPrefix(in.text, "/*") && strings.HasSuffix(toks[g].T, "/") {
